@@ -3,13 +3,14 @@
    _add_process_path/_add_step_path) with Model/Steps.v and Model/Sched.v; proofs: Proofs/Struct_proofs.v.
    The scheduler only ever polls the processes of its table (Model/Sched.v iter folds over procs) and creates fronts
    at the current time; what is proved here is the table part, including the invariant "process table = non-step process
-   nodes of the hierarchy" through delete, generate and move (Proofs/Consistent_proofs.v).  Division, the step tables and the
+   nodes of the hierarchy" through delete, generate and move (Proofs/Consistent_proofs.v).  Proofs/Consistent2_proofs.v extends it to the step table and to division
+   (consistent_op, consistent_history).  The step graph, the published composite and the
    continuation of a rebuilt engine are decided by the bookkeeping correspondence and the run-stream oracle of the
    check; known findings K3, K6, K8 are deviations of the current code.
    This file contains only statements closed by `exact`, their assumptions and non-vacuity examples.
    Generated once by tools/genprops.py from the proved lemmas (statements restated verbatim). *)
 From Coq Require Import List NArith ZArith Bool Lia Sorting.Permutation.
-From Viv Require Import Base.Assoc Base.Tree Model.Paths Model.Steps Model.Struct Model.StructC Proofs.Struct_proofs Proofs.Consistent_proofs Proofs.MoveP_proofs.
+From Viv Require Import Base.Assoc Base.Tree Model.Paths Model.Steps Model.Struct Model.StructC Proofs.Struct_proofs Proofs.Consistent_proofs Proofs.MoveP_proofs Proofs.Consistent2_proofs.
 Import ListNotations.
 
 (* after an update no registered process lies under a path it deleted: nothing deleted (or moved away under its old path) is ever polled again *)
@@ -274,6 +275,215 @@ Theorem C10_movep_reports :
          (exists pi : pinfo, In (q, pi) (r_process rp) /\ o = pi_obj pi).
 Proof. exact @movep_reports. Qed.
 Print Assumptions C10_movep_reports.
+
+(* THE ENGINE RUNS EXACTLY WHAT IS IN THE HIERARCHY, one operation: if the process table and the step table list exactly the process / step nodes of the hierarchy (one entry per path), they still do after any structural operation (_add, _delete in both forms, _generate at a new key, _divide into new distinct keys, _move with a key or a nested path) followed by the engine bookkeeping *)
+Theorem C10_consistent_op :
+  forall (mk_child : N -> cnode * N) (D : Type) (build : D -> N -> cnode * N)
+           (copy_procs : cnode -> N -> cnode * N),
+         (forall u : N, proc_nodes (fst (mk_child u)) [] = []) ->
+         (forall u : N, cwf (fst (mk_child u))) ->
+         (forall (x : D) (n : N), cwf (fst (build x n))) ->
+         (forall (x : D) (n : N) (p : list key) (pi : pinfo),
+          In (p, pi) (proc_nodes (fst (build x n)) []) -> pi_in_steps pi = true -> pi_step pi = true) ->
+         (forall (m : cnode) (n : N), cwf m -> cwf (fst (copy_procs m n))) ->
+         forall (t : cnode) (here : list key) (o : sop D) (uid : N) (t' : cnode) 
+           (rp : reports) (uid' : N) (b b' : book),
+         cwf t ->
+         op_ok D t here o ->
+         consistent_procs t b ->
+         consistent_steps t b ->
+         apply_op mk_child D build copy_procs vfixed t here o uid = Ok (t', rp, uid') ->
+         book_apply b rp = Ok b' -> consistent_procs t' b' /\ consistent_steps t' b'.
+Proof. exact @consistent_op. Qed.
+Print Assumptions C10_consistent_op.
+
+(* ... after any history of such updates, on a hierarchy that stays well formed *)
+Theorem C10_consistent_history :
+  forall (mk_child : N -> cnode * N) (D : Type) (build : D -> N -> cnode * N)
+           (copy_procs : cnode -> N -> cnode * N),
+         (forall u : N, proc_nodes (fst (mk_child u)) [] = []) ->
+         (forall u : N, cwf (fst (mk_child u))) ->
+         (forall (x : D) (n : N), cwf (fst (build x n))) ->
+         (forall (x : D) (n : N) (p : list key) (pi : pinfo),
+          In (p, pi) (proc_nodes (fst (build x n)) []) -> pi_in_steps pi = true -> pi_step pi = true) ->
+         (forall (m : cnode) (n : N), cwf m -> cwf (fst (copy_procs m n))) ->
+         forall (h : list (list key * sop D)) (t : cnode) (b : book) (u : N) 
+           (t' : cnode) (b' : book) (u' : N),
+         history mk_child D build copy_procs vfixed h t b u t' b' u' ->
+         cwf t ->
+         consistent_procs t b ->
+         consistent_steps t b -> cwf t' /\ consistent_procs t' b' /\ consistent_steps t' b'.
+Proof. exact @consistent_history. Qed.
+Print Assumptions C10_consistent_history.
+
+(* ... every such operation keeps the hierarchy well formed *)
+Theorem C10_apply_op_cwf :
+  forall (mk_child : N -> cnode * N) (D : Type) (build : D -> N -> cnode * N)
+           (copy_procs : cnode -> N -> cnode * N),
+         (forall u : N, proc_nodes (fst (mk_child u)) [] = []) ->
+         (forall u : N, cwf (fst (mk_child u))) ->
+         (forall (x : D) (n : N), cwf (fst (build x n))) ->
+         (forall (m : cnode) (n : N), cwf m -> cwf (fst (copy_procs m n))) ->
+         forall (vr : variant) (t : cnode) (here : list key) (o : sop D) 
+           (uid : N) (t' : cnode) (rp : reports) (uid' : N),
+         cwf t ->
+         op_ok D t here o ->
+         apply_op mk_child D build copy_procs vr t here o uid = Ok (t', rp, uid') -> cwf t'.
+Proof. exact @apply_op_cwf. Qed.
+Print Assumptions C10_apply_op_cwf.
+
+(* ... division, process table (explicit daughters built by the composite, inheriting daughters copied from the mother) *)
+Theorem C10_consistent_divide :
+  forall (mk_child : N -> cnode * N) (D : Type) (build : D -> N -> cnode * N)
+           (copy_procs : cnode -> N -> cnode * N),
+         (forall u : N, proc_nodes (fst (mk_child u)) [] = []) ->
+         (forall u : N, cwf (fst (mk_child u))) ->
+         (forall (x : D) (n : N), cwf (fst (build x n))) ->
+         (forall (m : cnode) (n : N), cwf m -> cwf (fst (copy_procs m n))) ->
+         forall (vr : variant) (t : cnode) (here : list key) (m : key)
+           (ds : list (key * option D * tree Z)) (ch : list bool) (uid : N) 
+           (t' : cnode) (rp : reports) (uid' : N) (b b' : book),
+         cwf t ->
+         consistent_procs t b ->
+         divide_ok D t here ds ->
+         apply_op mk_child D build copy_procs vr t here (OpDivide D m ds ch) uid = Ok (t', rp, uid') ->
+         book_apply b rp = Ok b' -> consistent_procs t' b'.
+Proof. exact @consistent_divide. Qed.
+Print Assumptions C10_consistent_divide.
+
+(* ... division, step table *)
+Theorem C10_consistent_steps_divide :
+  forall (mk_child : N -> cnode * N) (D : Type) (build : D -> N -> cnode * N)
+           (copy_procs : cnode -> N -> cnode * N),
+         (forall u : N, proc_nodes (fst (mk_child u)) [] = []) ->
+         (forall u : N, cwf (fst (mk_child u))) ->
+         (forall (x : D) (n : N), cwf (fst (build x n))) ->
+         (forall (m : cnode) (n : N), cwf m -> cwf (fst (copy_procs m n))) ->
+         forall (vr : variant) (t : cnode) (here : list key) (m : key)
+           (ds : list (key * option D * tree Z)) (ch : list bool) (uid : N) 
+           (t' : cnode) (rp : reports) (uid' : N) (b b' : book),
+         cwf t ->
+         consistent_steps t b ->
+         divide_ok D t here ds ->
+         apply_op mk_child D build copy_procs vr t here (OpDivide D m ds ch) uid = Ok (t', rp, uid') ->
+         book_apply b rp = Ok b' -> consistent_steps t' b'.
+Proof. exact @consistent_steps_divide. Qed.
+Print Assumptions C10_consistent_steps_divide.
+
+(* ... generate, step table (what the composite lists under steps is a Step) *)
+Theorem C10_consistent_steps_generate :
+  forall (mk_child : N -> cnode * N) (D : Type) (build : D -> N -> cnode * N)
+           (copy_procs : cnode -> N -> cnode * N),
+         (forall u : N, proc_nodes (fst (mk_child u)) [] = []) ->
+         (forall (x : D) (n : N), cwf (fst (build x n))) ->
+         (forall (x : D) (n : N) (p : list key) (pi : pinfo),
+          In (p, pi) (proc_nodes (fst (build x n)) []) -> pi_in_steps pi = true -> pi_step pi = true) ->
+         forall (vr : variant) (t : cnode) (here : list key) (k : key) (d : D) 
+           (init : tree Z) (uid : N) (t' : cnode) (rp : reports) (uid' : N) 
+           (b b' : book),
+         cwf t ->
+         consistent_steps t b ->
+         cget t (here ++ [k]) = None ->
+         apply_op mk_child D build copy_procs vr t here (OpGenerate D k d init) uid =
+         Ok (t', rp, uid') -> book_apply b rp = Ok b' -> consistent_steps t' b'.
+Proof. exact @consistent_steps_generate. Qed.
+Print Assumptions C10_consistent_steps_generate.
+
+(* ... delete, step table *)
+Theorem C10_consistent_steps_delete :
+  forall (mk_child : N -> cnode * N) (D : Type) (build : D -> N -> cnode * N)
+           (copy_procs : cnode -> N -> cnode * N) (vr : variant) (t : cnode) 
+           (here : list key) (k : key) (uid : N) (t' : cnode) (rp : reports) 
+           (uid' : N) (b b' : book),
+         cwf t ->
+         consistent_steps t b ->
+         apply_op mk_child D build copy_procs vr t here (OpDelete D k) uid = Ok (t', rp, uid') ->
+         book_apply b rp = Ok b' -> consistent_steps t' b'.
+Proof. exact @consistent_steps_delete. Qed.
+Print Assumptions C10_consistent_steps_delete.
+
+(* ... move by key, both tables, in the pinned variant too; no premise on the target (a target inside the moved subtree makes the operation fail) *)
+Theorem C10_consistent_move_any :
+  forall (mk_child : N -> cnode * N) (D : Type) (build : D -> N -> cnode * N)
+           (copy_procs : cnode -> N -> cnode * N) (vr : variant) (t : cnode) 
+           (here : list key) (src : key) (tgt : list key) (uid : N) (t' : cnode) 
+           (rp : reports) (uid' : N) (b b' : book),
+         cwf t ->
+         consistent_procs t b ->
+         apply_op mk_child D build copy_procs vr t here (OpMove D src tgt) uid = Ok (t', rp, uid') ->
+         book_apply b rp = Ok b' -> consistent_procs t' b'.
+Proof. exact @consistent_move_any. Qed.
+Print Assumptions C10_consistent_move_any.
+
+(* ... move with a nested source, both tables *)
+Theorem C10_consistent_movep_any :
+  forall (mk_child : N -> cnode * N) (D : Type) (build : D -> N -> cnode * N)
+           (copy_procs : cnode -> N -> cnode * N) (vr : variant) (t : cnode)
+           (here src tgt : list key) (uid : N) (t' : cnode) (rp : reports) 
+           (uid' : N) (b b' : book),
+         cwf t ->
+         consistent_procs t b ->
+         apply_op mk_child D build copy_procs vr t here (OpMoveP D src tgt) uid = Ok (t', rp, uid') ->
+         book_apply b rp = Ok b' -> consistent_procs t' b'.
+Proof. exact @consistent_movep_any. Qed.
+Print Assumptions C10_consistent_movep_any.
+
+(* Engine.apply_update files as steps exactly the reported Steps (through r_step, and through r_process by is_step()) and drops those under reported deletions *)
+Theorem C10_book_apply_steps :
+  forall (b : book) (rp : reports) (b' : book) (q : list key) (o : N),
+         NoDup (map fst (b_steps b)) ->
+         (forall (p : list key) (pi pi' : pinfo),
+          In (p, pi) (step_adds rp) -> In (p, pi') (step_adds rp) -> pi_obj pi = pi_obj pi') ->
+         book_apply b rp = Ok b' ->
+         In (q, o) (b_steps b') <->
+         (In (q, o) (b_steps b) /\ ~ In q (map fst (step_adds rp)) \/
+          (exists pi : pinfo, In (q, pi) (step_adds rp) /\ o = pi_obj pi)) /\
+         (forall d : list key, In d (r_deletions rp) -> starts_with q d = false).
+Proof. exact @book_apply_steps. Qed.
+Print Assumptions C10_book_apply_steps.
+
+(* the kit premises hold for the concrete kit of the correspondence (Model/StructC.v): the invariant theorem instantiated *)
+Theorem C10_structc_consistent_history :
+  forall (h : list (list key * sop N)) (t : cnode) (b : book) (u : N) 
+           (t' : cnode) (b' : book) (u' : N),
+         history mk_child N build copy_procs vfixed h t b u t' b' u' ->
+         cwf t ->
+         consistent_procs t b ->
+         consistent_steps t b -> cwf t' /\ consistent_procs t' b' /\ consistent_steps t' b'.
+Proof. exact @structc_consistent_history. Qed.
+Print Assumptions C10_structc_consistent_history.
+
+(* known finding K8 on the concrete kit: after an inheriting division both tables are consistent while the published topology / flow still list the steps the daughters lost *)
+Theorem C10_k8_tables_consistent_publication_stale :
+  exists (t' : cnode) (b' : book) (u' : N),
+           history mk_child N build copy_procs vfixed
+             [([10%N], OpGenerate N 20%N 3%N (Nd []));
+              ([10%N], OpDivide N 20%N [(21%N, None, Nd []); (22%N, None, Nd [])] [])] ex_root
+             ex_book 100 t' b' u' /\
+           consistent_procs t' b' /\
+           consistent_steps t' b' /\
+           step_paths t' = [] /\
+           b_steps b' = [] /\
+           In [10%N; 21%N; kFst] (pub_topology b') /\
+           In ([10%N; 21%N; kFst2], [[Dn kFst]]) (pub_flow b') /\
+           cget t' [10%N; 21%N; kFst] = None /\ cget t' [10%N; 21%N; kFst2] = None.
+Proof. exact @k8_tables_consistent_publication_stale. Qed.
+Print Assumptions C10_k8_tables_consistent_publication_stale.
+
+(* known finding K6 on the concrete kit: explicit daughters with an empty flow - tables consistent, published flow stale *)
+Theorem C10_k6_tables_consistent_publication_stale :
+  exists (t' : cnode) (b' : book) (u' : N),
+           history mk_child N build copy_procs vfixed
+             [([10%N], OpGenerate N 20%N 3%N (Nd []));
+              ([10%N], OpDivide N 20%N [(21%N, Some 0%N, Nd []); (22%N, Some 0%N, Nd [])] [])]
+             ex_root ex_book 100 t' b' u' /\
+           consistent_procs t' b' /\
+           consistent_steps t' b' /\
+           step_paths t' = [] /\
+           b_steps b' = [] /\
+           In ([10%N; 21%N; kFst2], [[Dn kFst]]) (pub_flow b') /\ cget t' [10%N; 21%N; kFst2] = None.
+Proof. exact @k6_tables_consistent_publication_stale. Qed.
+Print Assumptions C10_k6_tables_consistent_publication_stale.
 
 
 (* ---- non-vacuity on the concrete kit (Model/StructC.v) ---- *)
